@@ -22,8 +22,9 @@ def run(tier):
              # sync period (uint16 arithmetic in the code), hours between calls
              (50000, 30000, 1000, [30000000, 31000000], 400000000, 250000000)]
     if tier == 'thorough':
-        confs += [(3600, 5, 1000, [500, 5000, 600000], 4200000, 1300000), (2, 1, 250, [100, 300, 1000], 7000, 2500)]
-        confs = [(a, b, c, d, int(e * 1.5), int(f * 1.3)) for a, b, c, d, e, f in confs]
+        # (the first four lattices grow about fivefold per 25 % of horizon; the long-period configurations are coarse lattices)
+        confs = [(a, b, c, d, int(e * 1.25), int(f * 1.15)) if max(d) < 60000 else (a, b, c, d, e, f) for a, b, c, d, e, f in confs]
+        confs += [(3600, 5, 6000, [5000, 600000], 3800000, 1300000), (2, 1, 250, [100, 300, 1000], 7000, 2500), (16, 2, 2000, [1000, 7000], 60000, 30000)]
     st = tr = nscripts = nsteps = 0
     for ci, (sync, initial, timeout, steps, tmax, treplay) in enumerate(confs):
         for mode in ('distinct', 'same', 'none'):
